@@ -41,9 +41,16 @@ NodesInCur == Cardinality({i \in NodeIds(doc) : doc.nodes[i].d = cur})
 Crossed(j) == \E k \in 1..j : doc.nodes[path[k]].k = "field"
 
 \* a selection set is complete: non-empty, and __typename present when its type is abstract
+\* (the __typename of an abstract set may also come from a fragment on the same type that is spread
+\* here and whose body is built later; whether it really does is decided by Supported at the end)
+PromisedTypename(d, p, t) ==
+  \E i \in ChildSet(doc, d, p) :
+     /\ doc.nodes[i].k = "spread"
+     /\ LET f == FragIndex(doc, doc.nodes[i].name) IN f > cur /\ doc.defs[f].on = t
+
 SetComplete(d, p, t) ==
   /\ ChildSet(doc, d, p) # {}
-  /\ IsAbstract(S, t) => HasTypename(doc, d, p, t, {})
+  /\ IsAbstract(S, t) => (HasTypename(doc, d, p, t, {}) \/ PromisedTypename(d, p, t))
 
 \* levels deeper than j can be closed
 Closable(j) == \A k \in (j + 1)..Len(path) : SetComplete(cur, path[k], LevelType(k))
